@@ -6,6 +6,7 @@ import (
 	"fmt"
 	"os"
 	"os/exec"
+	"path"
 	"path/filepath"
 	"sort"
 	"strings"
@@ -43,6 +44,7 @@ type c20Case struct {
 	V     map[string]string `json:"v,omitempty"`
 	E     map[string]string `json:"e,omitempty"`
 	C     int               `json:"c,omitempty"`
+	Perm  []int             `json:"perm,omitempty"` // order of the flags on the command line (a permutation of the flag groups)
 }
 
 var c20CLI = reg("C20", "c20-cli", checkC20)
@@ -74,37 +76,53 @@ func cliBinary(race bool) (string, error) {
 }
 
 func (c *c20Case) argv() []string {
-	var a []string
-	a = append(a, "-x", c.Expr)
+	var groups [][]string
+	add := func(g ...string) { groups = append(groups, g) }
+	add("-x", c.Expr)
 	if c.A {
-		a = append(a, "-a")
+		add("-a")
 	}
 	if c.M {
-		a = append(a, "-m")
+		add("-m")
 	}
 	if c.N {
-		a = append(a, "-n")
+		add("-n")
 	}
 	if c.R {
-		a = append(a, "-r")
+		add("-r")
 	}
 	if c.U {
-		a = append(a, "-u")
+		add("-u")
 	}
 	if c.T != "" {
-		a = append(a, "-t", c.T)
+		add("-t", c.T)
 	}
 	if c.C > 0 {
-		a = append(a, "-c", fmt.Sprint(c.C))
+		add("-c", fmt.Sprint(c.C))
 	}
 	for _, k := range sortedKeys(c.S) {
-		a = append(a, "-s", k+"="+c.S[k])
+		add("-s", k+"="+c.S[k])
 	}
 	for _, k := range sortedKeys(c.V) {
-		a = append(a, "-v", k+"="+c.V[k])
+		add("-v", k+"="+c.V[k])
 	}
 	for _, k := range sortedKeys(c.E) {
-		a = append(a, "-e", k+"="+c.E[k])
+		add("-e", k+"="+c.E[k])
+	}
+	// the flags in the drawn order (indices beyond the groups are ignored,
+	// groups not named keep their place at the end)
+	var a []string
+	used := make([]bool, len(groups))
+	for _, i := range c.Perm {
+		if i >= 0 && i < len(groups) && !used[i] {
+			used[i] = true
+			a = append(a, groups[i]...)
+		}
+	}
+	for i, g := range groups {
+		if !used[i] {
+			a = append(a, g...)
+		}
 	}
 	return append(a, c.Args...)
 }
@@ -141,13 +159,19 @@ func typeOfPath(p string) string {
 	return ""
 }
 
+// cliInput is one input the CLI processes: the file (clean path relative to
+// the work directory, "-" for stdin) and the path the tool was told about it
+// (the argument as spelled for a file argument; the joined path for a file
+// found below a directory argument).
+type cliInput struct {
+	file  string
+	shown string
+}
+
 // walkOrder lists the files the CLI processes, in its order (filepath.WalkDir
-// is lexical), for the given arguments.
-func (c *c20Case) walkOrder() (files []string, skippedDirs []string) {
-	all := map[string]cliFile{}
-	for _, f := range c.Files {
-		all[f.Path] = f
-	}
+// is lexical), for the given arguments.  Arguments may be spelled with "./",
+// doubled or trailing slashes and ".." segments.
+func (c *c20Case) walkOrder() (files []cliInput, skippedDirs []string) {
 	isDir := func(p string) bool {
 		for _, f := range c.Files {
 			if strings.HasPrefix(f.Path, p+"/") {
@@ -157,17 +181,18 @@ func (c *c20Case) walkOrder() (files []string, skippedDirs []string) {
 		return false
 	}
 	for _, a := range c.Args {
+		clean := path.Clean(a)
 		switch {
 		case a == "-":
-			files = append(files, "-")
-		case isDir(a):
+			files = append(files, cliInput{"-", "-"})
+		case isDir(clean):
 			if !c.R {
 				skippedDirs = append(skippedDirs, a)
 				continue
 			}
 			var under []string
 			for _, f := range c.Files {
-				if strings.HasPrefix(f.Path, a+"/") {
+				if strings.HasPrefix(f.Path, clean+"/") {
 					under = append(under, f.Path)
 				}
 			}
@@ -175,9 +200,11 @@ func (c *c20Case) walkOrder() (files []string, skippedDirs []string) {
 			sort.Slice(under, func(i, j int) bool {
 				return strings.ReplaceAll(under[i], "/", "\x00") < strings.ReplaceAll(under[j], "/", "\x00")
 			})
-			files = append(files, under...)
+			for _, u := range under {
+				files = append(files, cliInput{u, u})
+			}
 		default:
-			files = append(files, a)
+			files = append(files, cliInput{clean, a})
 		}
 	}
 	return
@@ -203,14 +230,16 @@ func readAs(kind string, data []byte, c *c20Case) (store.Cursor, error) {
 }
 
 type cliExpect struct {
-	stdout    string
+	stdout    string // records prefixed with the path as the tool was told it
+	stdoutAlt string // records prefixed with the cleaned path (it names the same file)
 	mRecords  []mRecord // for -m: the node behind every output line
 	diagnosed []string  // paths that must be named on stderr
 }
 
 type mRecord struct {
-	path string
-	cur  store.Cursor
+	path  string // clean path of the file
+	shown string // the path as the tool was told it
+	cur   store.Cursor
 }
 
 // expectCLI derives the expected output through the library API.
@@ -237,8 +266,9 @@ func expectCLI(c *c20Case) (*cliExpect, error) {
 	for _, f := range c.Files {
 		byPath[f.Path] = f
 	}
-	var sb strings.Builder
-	for _, p := range files {
+	var sb, sbAlt strings.Builder
+	for _, in := range files {
+		p := in.file
 		var data []byte
 		kind := c.T
 		if p == "-" {
@@ -250,47 +280,50 @@ func expectCLI(c *c20Case) (*cliExpect, error) {
 		} else {
 			f, ok := byPath[p]
 			if !ok {
-				exp.diagnosed = append(exp.diagnosed, p)
+				exp.diagnosed = append(exp.diagnosed, in.shown)
 				continue
 			}
 			if kind == "" {
 				kind = typeOfPath(p)
 			}
 			if kind == "" || f.Kind == "dangling" {
-				exp.diagnosed = append(exp.diagnosed, p)
+				exp.diagnosed = append(exp.diagnosed, in.shown)
 				continue
 			}
 			data = f.Data
 		}
 		cur, err := readAs(kind, data, c)
 		if err != nil || cur == nil {
-			exp.diagnosed = append(exp.diagnosed, p)
+			exp.diagnosed = append(exp.diagnosed, in.shown)
 			continue
 		}
 		res, err := safeExec(cur, &g, set...)
 		if err != nil {
-			exp.diagnosed = append(exp.diagnosed, p)
+			exp.diagnosed = append(exp.diagnosed, in.shown)
 			continue
 		}
-		prefix := p + ": "
+		prefix, prefixAlt := in.shown+": ", p+": "
 		if c.N || p == "-" {
-			prefix = ""
+			prefix, prefixAlt = "", ""
 		}
 		ns, isNS := res.(xsel.NodeSet)
 		switch {
 		case isNS && len(ns) == 0:
 		case isNS && c.M:
 			for _, n := range ns {
-				exp.mRecords = append(exp.mRecords, mRecord{p, n})
+				exp.mRecords = append(exp.mRecords, mRecord{p, in.shown, n})
 			}
 		case isNS && c.A:
 			for _, n := range ns {
 				sb.WriteString(prefix + xsel.GetCursorString(n) + "\n")
+				sbAlt.WriteString(prefixAlt + xsel.GetCursorString(n) + "\n")
 			}
 		default:
 			sb.WriteString(prefix + res.String() + "\n")
+			sbAlt.WriteString(prefixAlt + res.String() + "\n")
 		}
 	}
+	exp.stdoutAlt = sbAlt.String()
 	exp.stdout = sb.String()
 	return exp, nil
 }
@@ -377,7 +410,7 @@ func checkC20(c *c20Case) error {
 		return fmt.Errorf("xsel %q: %d inputs could not be processed (%v) but stderr has only %d lines: %q", c.argv(), len(exp.diagnosed), exp.diagnosed, n, stderr.String())
 	}
 	if !c.M {
-		if stdout.String() != exp.stdout {
+		if stdout.String() != exp.stdout && stdout.String() != exp.stdoutAlt {
 			return fmt.Errorf("xsel %q printed %q, the library's results give %q (stderr %q)", c.argv(), stdout.String(), exp.stdout, stderr.String())
 		}
 		return nil
@@ -388,7 +421,7 @@ func checkC20(c *c20Case) error {
 		lines = lines[:len(lines)-1]
 	}
 	if len(exp.mRecords) == 0 {
-		if stdout.String() != exp.stdout {
+		if stdout.String() != exp.stdout && stdout.String() != exp.stdoutAlt {
 			return fmt.Errorf("xsel %q printed %q, the library's results give %q", c.argv(), stdout.String(), exp.stdout)
 		}
 		return nil
@@ -421,9 +454,13 @@ func checkC20(c *c20Case) error {
 	for i, rec := range exp.mRecords {
 		line := lines[i]
 		if !(c.N || rec.path == "-") {
-			pre := rec.path + ": "
+			pre := rec.shown + ": "
 			if !strings.HasPrefix(line, pre) {
-				return fmt.Errorf("xsel %q: record %d %q lacks the prefix %q", c.argv(), i, line, pre)
+				// the cleaned path names the same file
+				pre = rec.path + ": "
+			}
+			if !strings.HasPrefix(line, pre) {
+				return fmt.Errorf("xsel %q: record %d %q lacks the prefix %q", c.argv(), i, line, rec.shown+": ")
 			}
 			line = line[len(pre):]
 		}
@@ -585,6 +622,33 @@ func TestC20(t *testing.T) {
 		c.Expr = exprs[rapid.IntRange(0, len(exprs)-1).Draw(t, "expr")]
 		if len(c.Args) == 0 {
 			c.Args = []string{c.Files[0].Path}
+		}
+		// other spellings of the same arguments
+		for i, a := range c.Args {
+			if a == "-" || rapid.IntRange(0, 3).Draw(t, "respell") != 0 {
+				continue
+			}
+			isDirArg := seenDir[a]
+			switch k := rapid.IntRange(0, 4).Draw(t, "spelling"); {
+			case k == 0:
+				c.Args[i] = "./" + a
+			case k == 1:
+				c.Args[i] = "././" + a
+			case k == 2 && isDirArg:
+				c.Args[i] = a + "/"
+			case k == 3 && strings.Contains(a, "/"):
+				c.Args[i] = strings.Replace(a, "/", "//", 1)
+			case k == 4 && strings.Contains(a, "/"):
+				c.Args[i] = strings.SplitN(a, "/", 2)[0] + "/../" + a
+			default:
+				c.Args[i] = "./" + a
+			}
+			st.Class("argument spelled unclean")
+		}
+		// the flags in any order
+		if rapid.Bool().Draw(t, "shuffleFlags") {
+			c.Perm = rapid.Permutation([]int{0, 1, 2, 3, 4, 5, 6, 7, 8, 9, 10, 11, 12, 13}).Draw(t, "flagOrder")
+			st.Class("flags shuffled")
 		}
 		st.Class(fmt.Sprintf("flags a=%v m=%v n=%v r=%v", c.A, c.M, c.N, c.R))
 		if len(c.Files) >= 2 {
